@@ -75,7 +75,7 @@ Qed.
 (* non-vacuity: with one shared stack two threads do disturb each other *)
 Example shared_stack_interferes :
   let c1 := mkctx 4 Disabled in let c2 := mkctx 5 Enabled in
-  let o := mkobs 1 0 KDoNotConvert false None Unspecified false c1 2 in
+  let o := mkobs 1 0 KDoNotConvert false [] None Unspecified false c1 2 in
   let ps := fun t => match t with 0 => [EvPush c1; EvObs o; EvPop c1] | 1 => [EvPush c2; EvPop c2] | _ => [] end in
   let cs := fun _ : nat => [mkctx 0 Unspecified] in
   run false [0; 1; 0] ps cs = None /\ (exists r, run true [0; 1; 0] ps cs = Some r).
